@@ -301,4 +301,17 @@ def initial (fwhm : α) (targets : List (List α × List α)) : List α :=
       if p.1 < (1.00001 : α) * Const.MINIMAL_N_1D then max' p.2 minkT else p.2
   (targets.map (·.1)).flatten ++ kT0.flatten
 
+/-- what `advanced_simulation` hands to `scipy.integrate.solve_ivp` (the solver itself is a parameter of the model):
+`solve_ivp(rhs_int, (0, t_max), n_kT_initial, vectorized=True, **solver_kwargs)` with `method` defaulting to Radau;
+`rhs_int` evaluates `_adv_rhs` column by column (C16) -/
+structure Call (α : Type) where
+  y0 : List α
+  t0 : α
+  t1 : α
+  method : String
+  vectorized : Bool
+
+def call (fwhm tMax : α) (targets : List (List α × List α)) (method : Option String) : Call α :=
+  { y0 := initial fwhm targets, t0 := lit 0, t1 := tMax, method := method.getD "Radau", vectorized := true }
+
 end Adv
